@@ -75,3 +75,21 @@ Theorem C12_primitive_total_f32 : forall (p : profile) (meth : method) s d (m : 
   \/ primitive_with (kops_of F32 meth) p meth s d m n = Panic PNaN.
 Proof. exact primitive_total_f32. Qed.
 Print Assumptions C12_primitive_total_f32.
+
+(* nnchain (what linkage runs for complete / average / weighted / ward): total
+   under a strict weak order and reducibility of the update formula - in
+   particular the unbounded inner `loop` of src/chain.rs terminates (the model
+   gives it |matrix|+2 iterations of fuel and the proof shows they suffice) *)
+Require Import KV.Model.Chain KV.Proofs.ChainIter.
+Theorem C12_nnchain_total : forall (T : Type) (K : kops T) (p : profile) (meth : method),
+  (forall a, k_ltb K a a = false) ->
+  (forall a b c, k_ltb K a b = true -> k_ltb K b c = true -> k_ltb K a c = true) ->
+  (forall a b c, k_ltb K a b = false -> k_ltb K b c = false -> k_ltb K a c = false) ->
+  (forall va vb md sa sb sx, size_ok meth sa sb sx ->
+     k_ltb K va md = false -> k_ltb K vb md = false ->
+     k_ltb K (k_upd K va vb md sa sb sx) va = false \/ k_ltb K (k_upd K va vb md sa sb sx) vb = false) ->
+  forall s d (m : list T) (n : N),
+  (n < two32)%N -> wf_shape n (N.of_nat (length m)) ->
+  (exists r, nnchain_with K p meth s d m n = Ok r) \/ nnchain_with K p meth s d m n = Panic PNaN.
+Proof. exact nnchain_total. Qed.
+Print Assumptions C12_nnchain_total.
